@@ -224,5 +224,5 @@ func TestProp(t *testing.T) {
 func TestProbes(t *testing.T) { pkit.Load(prop).RunProbes(t, nil) }
 
 func TestReplay(t *testing.T) {
-	t.Skip("C06 replays are re-run with: VERIF_SEED of the original run (two-stage check)")
+	t.Fatalf("no single-case replay for this check (the failing case is kept under <dir>/module with replay.json): re-run ./vcheck C06 <tier> with the VERIF_SEED of the failing run")
 }
